@@ -721,7 +721,7 @@ func runStmtOverlap(r *evid.Run) {
 					},
 				}}
 			}
-			states := map[string]struct{}{}
+			states := sched.StateSet{}
 			ex := &sched.Explorer{Mk: mk, MaxBound: bound, Stop: r.Expired, Horizon: 100000, States: states,
 				Check: func(x sched.Exec, _ *sched.Scenario) string {
 					c := stmtCase{Format: f, Reader: reader, Choices: x.Choices}
